@@ -1,5 +1,6 @@
 import Oas3Model.Gen.HashSites
 import Oas3Model.Model.Responses
+import Oas3Model.Proofs.Misc11
 namespace Oas3.Props.C11
 open Oas3.Gen.HashSites
 
@@ -17,5 +18,55 @@ def justified : List (List Char × List Char × List Char) := [
 /-- every iteration over a HashMap/HashSet found in the CURRENT non-test sources is one of the
 justified ones: adding an iteration over a hash container anywhere breaks this proof. -/
 theorem no_unjustified_hash_iteration : ∀ s ∈ iterations, s ∈ justified := by decide
+
+/-! ## order-independence of map construction
+
+The parser stores every object in a `BTreeMap`; `Oas3.Resp.sortKeys` is the model of "insert the
+key/value pairs in document order, read back in key order". -/
+open Oas3.Resp
+
+/-- any re-ordering of an object's members (distinct keys) yields the same map. -/
+theorem sortKeys_perm {β} (l₁ l₂ : List (List Char × β)) (hp : l₁.Perm l₂) (hk : (l₁.map (·.1)).Nodup) :
+    sortKeys l₁ = sortKeys l₂ :=
+  Oas3.Proofs.Misc11.sortKeys_perm l₁ l₂ hp hk
+
+/-- two lists in strictly increasing key order with the same members are equal (the canonical form is unique). -/
+theorem sorted_ext {β} (l₁ l₂ : List (List Char × β))
+    (h1 : l₁.Pairwise (fun p q => strLt p.1 q.1 = true)) (h2 : l₂.Pairwise (fun p q => strLt p.1 q.1 = true))
+    (h : ∀ x, x ∈ l₁ ↔ x ∈ l₂) : l₁ = l₂ :=
+  Oas3.Proofs.Misc11.ksorted_ext l₁ l₂ h1 h2 h
+
+/-- with distinct keys nothing is overwritten: the map holds exactly the members of the object. -/
+theorem mem_sortKeys_iff {β} (l : List (List Char × β)) (hk : (l.map (·.1)).Nodup) (p : List Char × β) :
+    p ∈ sortKeys l ↔ p ∈ l :=
+  Oas3.Proofs.Misc11.mem_sortKeys_iff hk p
+
+/-- …and it is a permutation of them. -/
+theorem sortKeys_perm_self {β} (l : List (List Char × β)) (hk : (l.map (·.1)).Nodup) : (sortKeys l).Perm l :=
+  Oas3.Proofs.Misc11.sortKeys_perm_self l hk
+
+/-- re-reading a map is the identity (holds for every input, duplicate keys included). -/
+theorem sortKeys_idem {β} (l : List (List Char × β)) : sortKeys (sortKeys l) = sortKeys l :=
+  Oas3.Proofs.Misc11.sortKeys_idem l
+
+/-- an already sorted member list is kept as is. -/
+theorem sortKeys_of_sorted {β} (l : List (List Char × β)) (h : l.Pairwise (fun p q => strLt p.1 q.1 = true)) :
+    sortKeys l = l :=
+  Oas3.Proofs.Misc11.sortKeys_of_sorted l h
+
+/-- non-vacuity: three keys in two document orders give the same map, in key order. -/
+example :
+    sortKeys [("b".toList, 2), ("a".toList, 1), ("c".toList, 3)] = sortKeys [("c".toList, 3), ("b".toList, 2), ("a".toList, 1)] ∧
+    sortKeys [("b".toList, 2), ("a".toList, 1), ("c".toList, 3)] = [("a".toList, 1), ("b".toList, 2), ("c".toList, 3)] := by
+  decide +kernel
+
+/-- the same instance through the general theorem -/
+example : sortKeys [("b".toList, 2), ("a".toList, 1), ("c".toList, 3)] = sortKeys [("c".toList, 3), ("b".toList, 2), ("a".toList, 1)] :=
+  sortKeys_perm _ _ (by decide) (by decide +kernel)
+
+/-- the distinct-keys hypothesis is needed: with a duplicated key the LAST occurrence wins, so order matters. -/
+theorem cex_dup_key_order :
+    sortKeys [("a".toList, 1), ("a".toList, 2)] ≠ sortKeys [("a".toList, 2), ("a".toList, 1)] := by
+  decide +kernel
 
 end Oas3.Props.C11
